@@ -163,7 +163,8 @@ def make_spec(case, opened):
         for attempt in range(400):
             wide = case.get('family') == 'wide'
             et_mode = case.get('family') == 'edge_templates' or want in ET_FOCUS
-            base, _, _ = gen.gen_net(rnd, pool=gen.SAFE_POOL,
+            pool = {'derived': gen.DERIVED_POOL, 'main': gen.MAIN_POOL}.get(case.get('pool'), gen.SAFE_POOL)
+            base, _, _ = gen.gen_net(rnd, pool=pool, label_pool=pool if case.get('hostile_labels') else None,
                                      n_nodes=rnd.choice([11, 12, 13, 14, 16]) if wide else rnd.choice([2, 3, 4, 5, 6, 8]),
                                      max_types=2 if wide else 3, depth=rnd.choice([0, 0, 0, 1, 2]), same_type_bias=True,
                                      n_edges=0)
@@ -182,6 +183,8 @@ def make_spec(case, opened):
             f, r = gen.features(spec)
             r2 = (set(r) - {'vec_partial_input_default'}) | vec_risks(spec)
             if want and want not in r2:
+                continue
+            if case.get('require') and case['require'] not in r2 and case['require'] not in f:
                 continue
             if (set(opened) - {want}) & r2:
                 continue
